@@ -456,8 +456,12 @@ func genCfg() *rapid.Generator[Cfg] {
 		}
 		c.Queue = rapid.SampledFrom([]string{"<default>", "<default>", "grp", ""}).Draw(t, "queue")
 		if rapid.IntRange(0, 2).Draw(t, "split") == 0 {
-			pool := []string{"a", "a.b", "a.$x", "a.b.c", "a.$x.c", "b.>", "b", "*.z.>"}
-			n := rapid.IntRange(2, 4).Draw(t, "nsplit")
+			// ("" is the pattern of the resource named like the service itself)
+			pool := []string{"", "a", "a.b", "a.$x", "a.b.c", "a.$x.c", "b.>", "b", "*.z.>"}
+			if c.Name == "" {
+				pool = pool[1:] // (a service without name has no such resource)
+			}
+			n := rapid.IntRange(1, 4).Draw(t, "nsplit")
 			start := rapid.IntRange(0, len(pool)-n).Draw(t, "splitfrom")
 			for i := 0; i < n; i++ {
 				c.Split = append(c.Split, HSpec{Pattern: pool[start+i]})
@@ -800,6 +804,19 @@ func TestRegressDuplicateOwnership(t *testing.T) {
 	msg, _ := check(c)
 	evid.ReportKnown(t, prop, "C09-duplicate-overlapping-ownership", msg != "", msg, c)
 	ev.Case(true, evid.Hash("regress-dup"), "regress")
+}
+
+func TestRegressRootHandlerOwnership(t *testing.T) {
+	// the only handler with an access handler is the one of the resource named like the service
+	c := Cfg{Name: "svc", Kinds: []string{"access", "get"}, Queue: "<default>", Split: []HSpec{{Pattern: "", Kinds: []string{"access"}}, {Pattern: "a", Kinds: []string{"get"}}}}
+	msg, _ := check(c)
+	if msg == "" {
+		// and a service that has nothing but that handler
+		c = Cfg{Name: "svc", Kinds: []string{"get"}, Queue: "<default>", Split: []HSpec{{Pattern: "", Kinds: []string{"get"}}}}
+		msg, _ = check(c)
+	}
+	evid.ReportKnown(t, prop, "C09-root-handler-not-owned", msg != "", msg, c)
+	ev.Case(true, evid.Hash("regress-root-owned"), "regress")
 }
 
 // TestPropLongOwnership: explicit ownership lists of several hundred entries; the reset sent
